@@ -2212,3 +2212,15 @@ Proof.
   { unfold s. simpl. apply shut_exec. split; reflexivity. }
   destruct Hs as [C D]. simpl. unfold do_get, do_add, do_peek, get_open. rewrite C, D. auto.
 Qed.
+
+(* the three lookups of a Get as stand-alone steps (other callers may run between them) *)
+Definition lookup_out (s : st) (k : nat) (r : st * out) : Prop :=
+  match snd r with
+  | OHit => exists rd, readers (fst r) = readers s ++ [rd] /\ r_key rd = k /\ r_open rd = true
+  | OMiss => fst r = s
+  | _ => False
+  end.
+
+Lemma lookup_steps_out s k d :
+  lookup_out s k (step s (GetMem k)) /\ lookup_out s k (step s (GetFd k)) /\ lookup_out s k (step s (GetOpen k d)).
+Proof. unfold lookup_out. simpl. split; [apply get_mem_out|]. split; [apply get_fd_out|apply get_open_out]. Qed.
